@@ -141,17 +141,30 @@ theorem C03_framing_choice (lim : Limits) (es : Bool) (hl : List (Bytes × Bytes
     (es = true → r.body = .length 0) ∧ r.body ≠ .empty :=
   validate_framing lim es hl r h
 
-/-- **A declared Content-Length is enforced against DATA** (model of
-    `h2.rs::handle_data_frame` / the trailer path; read from the source, not
-    tied — the code is not callable in-process): for every sequence of DATA /
-    trailer frames on a stream with `Content-Length: n`, never more than `n`
-    payload bytes are forwarded, and if the stream ends without being reset
-    exactly `n` were — the `BodyFits` hypothesis of `C03_unambiguous`. -/
+/-- **A declared Content-Length is enforced against DATA** (model `rrun` of
+    `h2.rs::handle_data_frame` / the trailer path, transcribed from the source —
+    the code is not callable in-process — and tied end-to-end: the `cl-matrix`
+    cases of `e2ebody` drive a real worker with a TLS HTTP/2 client and a strict
+    HTTP/1.1 backend over method × declared length × DATA split × END_STREAM
+    placement, and the driver's `recon` verdict (reset / done / forwarded) must
+    equal what client and backend observe, class `c03-length-model-disagrees`):
+    for every sequence of DATA / trailer frames on a request stream with
+    `Content-Length: n` (a request is never `content_length_exempt`: that is for
+    HEAD / 1xx / 204 / 304 *responses*), never more than `n` payload bytes are
+    forwarded, and if the stream ends without being reset exactly `n` were — the
+    `BodyFits` hypothesis of `C03_unambiguous`. -/
 theorem C03_declared_length_enforced (n : Nat) (evs : List StreamEv) :
     (rrun (some n) false evs).forwarded ≤ n ∧
     ((rrun (some n) false evs).done = true →
       (rrun (some n) false evs).reset = false ∧ (rrun (some n) false evs).forwarded = n) :=
   ⟨(rrun_inv n evs).1, (rrun_inv n evs).2.2.2⟩
+
+/-- the exemption must not reach requests: with `exempt = true` (what a HEAD
+    request would get if `content_length_exempt` ignored the position) a stream
+    declaring 5 bytes ends un-reset with 0, or with 9, forwarded -/
+theorem C03_declared_length_enforced_needs_no_exemption :
+    (rrun (some 5) true [.data 0 true]).done = true ∧ (rrun (some 5) true [.data 0 true]).forwarded = 0 ∧
+    (rrun (some 5) true [.data 9 true]).done = true ∧ (rrun (some 5) true [.data 9 true]).forwarded = 9 := by decide
 
 example : (rrun (some 5) false [.data 2 false, .data 3 true]).done = true ∧
     (rrun (some 5) false [.data 2 false, .data 4 true]).reset = true ∧
